@@ -485,7 +485,9 @@ uint32_t LessThan_deepPTRef::getVarIdFromProduct(PTRef tr) const {
 bool LessThan_deepPTRef::operator()(PTRef x_, PTRef y_) const {
     uint32_t id_x = l.isTimes(x_) ? getVarIdFromProduct(x_) : x_.x;
     uint32_t id_y = l.isTimes(y_) ? getVarIdFromProduct(y_) : y_.x;
-    return id_x < id_y;
+    // Break ties (a variable and a multiple of it, e.g. the arguments of (= x (* 2 x))) by the terms themselves,
+    // otherwise the order of commutative arguments depends on the order in which they were given
+    return id_x < id_y or (id_x == id_y and x_.x < y_.x);
 }
 
 void ArithLogic::termSort(vec<PTRef> & v) const {
